@@ -67,11 +67,22 @@ class AdversarialSource(object):
         self.small = None
         self.inject = []        # values to hand out next, whatever the mode
         self.pending_repeat = None
+        self.last_fresh = None
+        self.rep_target = None
 
     def fresh(self):
+        if self.cfg.get("mode") == "neighbours" and self.history and self.r.random() < 0.85:
+            # fresh values that are numeric neighbours of the values handed out before (a counter-like source)
+            base = int.from_bytes(self.last_fresh or self.history[-1], "big")
+            for d in (1, 2, -1, 3):
+                v = ((base + d) & 0xffffffff).to_bytes(4, "big")
+                if v not in self.returned:
+                    self.last_fresh = v
+                    return v
         while True:
             v = self.r.getrandbits(32).to_bytes(4, "big")
             if v not in self.returned:
+                self.last_fresh = v
                 return v
 
     def __call__(self, n):
@@ -128,6 +139,12 @@ class AdversarialSource(object):
                     k = self.r.randrange(1, 4)
                     v = (self.history[i] + self.history[i + 1])[k:k + 4]
                     self.pending_repeat = v
+            elif mode == "neighbours":
+                # long runs of ONE value that was handed out earlier (the run length is max_repeat: tens to hundreds)
+                if self.rep_target is None and len(self.history) >= cfg.get("after", 6) and self.r.random() < cfg.get("p", 0.5):
+                    self.rep_target = self.history[self.r.randrange(len(self.history))]
+                if self.rep_target is not None:
+                    v = self.rep_target
             elif mode == "boundary":
                 if self.r.random() < 0.5:
                     v = self.r.choice([b"\x00\x00\x00\x00", b"\xff\xff\xff\xff",
@@ -143,6 +160,7 @@ class AdversarialSource(object):
             self.repeats += 1
         else:
             self.stale_run = 0
+            self.rep_target = None
         self.returned.add(v)
         self.history.append(v)
         self.last_by_thread[tid] = v
@@ -219,9 +237,14 @@ class C15(Check):
             mode = "replay_old"
         elif index % 10 == 3 and not long_history:
             mode = "straddle"
+        neighbours = (index % 10 == 8) and not long_history
+        if neighbours:
+            mode = "neighbours"
         src = {"mode": mode, "seed": rng.getrandbits(32), "k": rng.choice([2, 3, 4, 8]),
                "max_repeat": rng.choice([1, 2, 4, 8, 16]), "p": rng.choice([0.5, 0.8, 1.0]),
                "bits": rng.choice([8, 16, 20, 24])}
+        if neighbours:
+            src.update({"max_repeat": [20, 40, 70, 300][(index // 10) % 4], "after": 6, "p": 0.3})
         if long_history:
             src.update({"after": threads[0][0][1] - 100, "p": 0.9, "max_repeat": 6})
         if aged:
